@@ -27,6 +27,7 @@ func init() {
 		c15MidFrameEOF(c)
 		c15Stale(c)
 		c15NoDeclaredSizeAllocation(c)
+		c15ConsumedAccounting(c, "C15.4b")
 	})
 }
 
@@ -830,4 +831,53 @@ func c15NoDeclaredSizeAllocation(c *core.Ctx) {
 		}
 	}
 	c.Need(R, "make sites in package webtransport", n, 4)
+}
+
+// c15ConsumedAccounting — C15.4b / C13.4b / C02.8e: the remaining-bytes counter
+// of the current frame follows the bytes actually read.
+func c15ConsumedAccounting(c *core.Ctx, R string) {
+	c.Rule(R, "consumed-bytes accounting: in messageReader.Read the value handed to setReadRemaining is readRemaining minus int64(n) where n is the count returned by c.br.Read(b) — not the size of the (clamped) destination buffer: a short read (payload split across stream reads, or the stream ending inside the frame) would otherwise be booked as a complete read, the frame reported complete and its undelivered bytes parsed as the next frame header")
+	rd := c.Fn(R, wtMRRead)
+	if rd == nil {
+		return
+	}
+	info := rd.Info()
+	fromRead := func(e ast.Expr) bool {
+		e = stripConv(info, e)
+		d, ok := rd.SingleDef(e)
+		if !ok {
+			return false
+		}
+		te, ok := d.(*core.TupleElem)
+		if !ok || te.Index != 0 {
+			return false
+		}
+		ce, ok := ast.Unparen(te.X).(*ast.CallExpr)
+		if !ok {
+			return false
+		}
+		se, ok := ce.Fun.(*ast.SelectorExpr)
+		return ok && se.Sel.Name == "Read" && fieldOf(info, se.X) == "Conn.br"
+	}
+	n := 0
+	ast.Inspect(rd.Body, func(x ast.Node) bool {
+		switch s := x.(type) {
+		case *ast.FuncLit:
+			return false
+		case *ast.AssignStmt:
+			if s.Tok == token.SUB_ASSIGN && len(s.Rhs) == 1 {
+				n++
+				c.Check(R, wtMRRead+"/subtracts-bytes-read", s.Pos(), fromRead(s.Rhs[0]), keyf("the counter is decreased by %s", core.ExprString(s.Rhs[0])))
+			}
+		case *ast.BinaryExpr:
+			if s.Op == token.SUB {
+				if t := info.TypeOf(s); t != nil && t.String() == "int64" {
+					n++
+					c.Check(R, wtMRRead+"/subtracts-bytes-read", s.Pos(), fromRead(s.Y), keyf("the counter is decreased by %s", core.ExprString(s.Y)))
+				}
+			}
+		}
+		return true
+	})
+	c.Need(R, "subtractions in messageReader.Read", n, 1)
 }
